@@ -42,10 +42,17 @@ def _anchor_files():
 ANCHOR_FILES = _anchor_files()
 
 
+TECH_COMMON = (
+    'scoped def-use / liveness lint (R00); findings of every other rule '
+    'located in code that the property\'s observation points execute '
+    '(resolved call graph closed under field writers)')
+
+
 def prop(pid, quick, thorough=(), undecided=(), assumptions=(),
          explanation='', technique='', level_text=''):
     quick = list(quick) + [lint.scoped('r00_%s' % pid,
                                        ANCHOR_FILES.get(pid))]
+    technique = (technique + '; ' if technique else '') + TECH_COMMON
     PROPS[pid] = dict(quick=list(quick), thorough=list(thorough),
                       undecided=list(undecided),
                       assumptions=list(assumptions),
@@ -68,8 +75,10 @@ prop('C01',
                 'time (ODE solver)', 'float equality of time points'],
      assumptions=COMMON_ASSUME,
      technique='cursor/partition discipline of the per-output loops, '
-               'sensitivity-switch typestate, total = sum of pointwise by '
-               'term algebra',
+               'must-analysis (branch join) that the per-output selector is '
+               'applied on every path, sort provenance of the searched '
+               'grid, sensitivity-switch typestate, total = sum of '
+               'pointwise by term algebra',
      explanation='Decides that the three per-output loops of LogLikelihood '
                  'slice the error parameters with a running cursor that is '
                  'advanced on every path, that each simulate() is reached '
@@ -259,7 +268,10 @@ prop('C11',
      undecided=['equality of simulation results (ODE solver)'],
      assumptions=COMMON_ASSUME,
      technique='path-sensitive typestate over the statement paths of every '
-               'PKPDModel/SBMLModel method with MRO-resolved inlining',
+               'PKPDModel/SBMLModel method with MRO-resolved inlining; '
+               'failure-atomicity path rule (no raise after a field effect) '
+               'and history-shortcut rule over the field effects of every '
+               'configuration method',
      explanation='Decides for every method of the SBML model classes and '
                  'every assignment of its boolean flags that a rebuilt '
                  'simulator gets the current dosing regimen re-attached and '
@@ -413,7 +425,10 @@ prop('C19',
      undecided=['multi-process behaviour (pickling, fork)',
                 'exception paths'],
      assumptions=COMMON_ASSUME,
-     technique='ownership / aliasing analysis of constructor stores and '
+     technique='alias / escape analysis: write-through on arguments and on '
+               'borrowed getter results (followed through private helpers), '
+               'returned field buffers; ownership analysis of constructor '
+               'stores and '
                'copy() methods over field effects; typestate of the '
                'sensitivity switch and of the simulator/protocol pairing',
      explanation='Decides the hidden-state clauses of C19: constructors '
